@@ -173,6 +173,12 @@ def space_api_cuts(make_elem):
             return make_elem(fr, self, VFresh(fr.st.fresh('elem')))
         if isinstance(inp, ip.Obj) and in_space(I, fr, inp, self):
             return inp
+        if hasattr(inp, 'materialise'):
+            # a real/imag *view* of another element is an element of the (real) space that shares memory
+            e = inp.materialise()
+            if in_space(I, fr, e, self):
+                e.view_of = inp.x
+                return e
         raise ip.PyRaise(I.make_exc('TypeError', 'cannot convert to element'))
 
     def one(I, fr, self):
